@@ -53,14 +53,36 @@ def _build_harness(race=False):
     gosum = os.path.join(REPO, "go.sum")
     if os.path.exists(gosum):
         shutil.copy(gosum, os.path.join(HARNESS, "go.sum"))
-    out = os.path.join(BUILD, "vdrive-race" if race else "vdrive")
-    cmd = ["go", "build", "-tags", "verif"] + (["-race"] if race else []) + ["-o", out, "./cmd/vdrive"]
+    # every invocation gets its own binary (checks may run side by side; a binary that is being executed must never be
+    # rewritten): built under a temporary name, then moved to a name that carries the process id
+    name = "vdrive-race" if race else "vdrive"
+    tmp = os.path.join(BUILD, "%s.%d.tmp" % (name, os.getpid()))
+    out = os.path.join(BUILD, "%s.%d" % (name, os.getpid()))
+    cmd = ["go", "build", "-tags", "verif"] + (["-race"] if race else []) + ["-o", tmp, "./cmd/vdrive"]
     t = time.time()
     p = subprocess.run(cmd, cwd=HARNESS, env=goenv(), capture_output=True, text=True)
     if p.returncode != 0:
         raise Infra("harness build failed:\n" + p.stdout + p.stderr)
-    log("built %s in %.1fs" % (os.path.basename(out), time.time() - t))
+    os.replace(tmp, out)
+    try:   # a stable name for tools and people (bin/setup, debugging); never executed by the checks
+        shutil.copy(out, os.path.join(BUILD, name + ".new"))
+        os.replace(os.path.join(BUILD, name + ".new"), os.path.join(BUILD, name))
+    except OSError:
+        pass
+    _BUILT.append(out)
+    log("built %s in %.1fs" % (name, time.time() - t))
     return out
+
+
+_BUILT = []
+
+
+def remove_built():
+    for f in _BUILT:
+        try:
+            os.remove(f)
+        except OSError:
+            pass
 
 
 def stage_specs(wd):
